@@ -5,7 +5,10 @@ The executor (harness/go/root/zz_verif_launch_test.go) calls the real (*schedule
 scheduler literal with a SCRIPTED random source.  A case is
   tick, hosts [(addr, region, last tick, hosted shard ids)] (= nodeHostList, in this order),
   shards [(id, app, members)], regions None | (names, counts), draws [ints]
-with strings encoded as numbers (address k <-> "a<k>", region k <-> "r<k>", app k <-> "app<k>", 0 <-> "").
+with strings encoded as numbers (address k <-> "a<k>", region k <-> "r<k>", app k <-> "app<k>", 0 <-> "";
+region numbers 101..108 <-> SPECIAL_REG, numbers >= 1000 <-> the region name table built by build_reg_table from the string
+settings the executor reports + literal names + their spelling variants; the encoding is injective, so equality of
+numbers (model, monitors) is exact equality of the strings the implementation gets).
 """
 import itertools, json, os, time
 from vlib import *
